@@ -31,11 +31,11 @@ func crashScenarios(tier string) []*simScenario {
 	}
 	bases := []*simScenario{
 		scenElect([]uint64{1, 2, 3}, nil, 3, dev, 1),
-		scenRepl(replSeeds[0], dev, true, 2, 1, 3),
-		scenRepl(replSeeds[3], dev, true, 1, 1, 4),
+		scenRepl(replSeedByName("leader"), dev, true, 2, 1, 3),
+		scenRepl(replSeedByName("divergent"), dev, true, 1, 1, 4),
 		scenMember(memberSeeds[1], dev, 1, 0, true, nil, 1),
-		scenSnap(snapSeeds[0], dev, true, true, 1),
-		scenSnap(snapSeeds[1], dev, true, true, 1),
+		scenSnap(snapSeeds[snapSeedIndex("full")], dev, true, true, 1),
+		scenSnap(snapSeeds[snapSeedIndex("lagging")], dev, true, true, 1),
 	}
 	var out []*simScenario
 	for _, b := range bases {
